@@ -4,6 +4,7 @@ from vlib import core
 ASSUME = [
     "comparison is bit-for-bit (+0/-0 identified) between a bunch's slice of the train result and a freshly built single-bunch map applied to the same data in the same process",
     "wake map: the single-bunch reference is a y-kick map given bunch b's block of the wake potential the train computed (the convolution itself is C06's subject)",
+    "program part: equal currents in 2 or 4 buckets, so that a bunch is the single-bunch run scaled by a power of two: compared bit-for-bit for all values above 1e-30 (scaling is not exact for subnormal numbers in the grid corners; those must agree to 1e-36)",
     "generic x-kicks are exercised with the same field for every bunch (the only x-kick of the solver, the drift, has one field for all bunches)",
 ]
 
